@@ -142,7 +142,7 @@ def _worker(args):
         return mod.run_shard(shard, tier)
     except BaseException:
         r = new_result()
-        r['errors'].append(f"shard {shard!r} crashed:\n{traceback.format_exc()}")
+        r['errors'].append(f"shard {str(shard)[:300]} crashed:\n{traceback.format_exc()}")
         return r
 
 
